@@ -1040,6 +1040,7 @@ package server
 //@ ensures[C18] lock_free: !held_r(r.serviceLock)
 
 //@ func (*server.Router).findOrCreateService
+//@ attr inline = server.NewService
 //@ requires r.services != nil
 //@ assigns nothing
 //@ may_emit LoadCert, ParseTemplates, ErrorPages, ServiceLookup
